@@ -45,7 +45,7 @@ def setup():
     targets = []
     for c in manifest.get('checks', []):
         pid = c['property_id']
-        targets.append(f'CopVerif.Props.{pid}')
+        targets += [f'CopVerif.Props.{m}' for m in vc.props_modules(pid)] or [f'CopVerif.Props.{pid}']
         try:
             mod = importlib.import_module(f'props.{pid.lower()}')
             targets += list(getattr(mod, 'DRIVER_TARGETS', []))
@@ -149,19 +149,20 @@ def run_check(prop, tier, seed, replay=None):
         if r['target'] in getattr(mod, 'GEN_TARGETS', ()):
             ctx.ob(f'translate:{r["target"]}', r['ok'], 'translate', r['detail'])
     # 2. build theorems
-    targets = [f'CopVerif.Props.{prop}']
+    targets = [f'CopVerif.Props.{m}' for m in vc.props_modules(prop)] or [f'CopVerif.Props.{prop}']
     ok, broken, dt, out = vc.lake_build(targets)
     ctx.checker_cmds.append(f'cd lean && lake build {" ".join(targets)}')
-    names = vc.props_theorems(prop) if os.path.exists(os.path.join(vc.LEAN, 'CopVerif', 'Props', f'{prop}.lean')) else []
+    pairs = vc.props_theorems(prop)
+    names = [n for _, n in pairs]
+    props_files = {f'CopVerif/Props/{m}.lean' for m in vc.props_modules(prop)}
     bad_decls = {}
     for b in broken:
         bad_decls.setdefault((b['file'], b['decl']), b)
-    props_file = f'CopVerif/Props/{prop}.lean'
-    upstream_broken = [b for b in broken if b['file'] != props_file or b['decl'] not in names]
+    upstream_broken = [b for b in broken if b['file'] not in props_files or b['decl'] not in names]
     for b in {(b['file'], b['decl']): b for b in upstream_broken}.values():
         ctx.ob(f'{b["file"]}:{b["decl"]}', False, 'lean', f'line {b["line"]}: {b["message"]}')
     for n in names:
-        bad = [b for b in broken if b['file'] == props_file and b['decl'] == n]
+        bad = [b for b in broken if b['file'] in props_files and b['decl'] == n]
         if bad:
             ctx.ob(n, False, 'theorem', f'line {bad[0]["line"]}: {bad[0]["message"]}')
         elif not ok:
@@ -209,7 +210,7 @@ def run_check(prop, tier, seed, replay=None):
         try:
             import subprocess
             t0 = time.time()
-            p = subprocess.run(['lake', 'env', 'leanchecker', f'CopVerif.Props.{prop}'], cwd=vc.LEAN,
+            p = subprocess.run(['lake', 'env', 'leanchecker'] + targets, cwd=vc.LEAN,
                                capture_output=True, text=True, timeout=3000)
             ctx.checker_cmds.append(f'lake env leanchecker CopVerif.Props.{prop}')
             ctx.ob('leanchecker', p.returncode == 0, 'audit', (p.stdout + p.stderr)[-300:])
